@@ -801,7 +801,7 @@ theorem step_cur (s s' : St) (e : Ev) (h : Cur s) (ha : AllRec s) (hs : step s e
         · cases hs
       · cases hs
     · cases hs
-  | quiesce p r =>
+  | quiesce p r l =>
     simp only [step] at hs
     split at hs
     · simp at hs; subst hs; exact h
